@@ -13,6 +13,7 @@ import (
 	"time"
 
 	"src.elv.sh/pkg/eval"
+	"src.elv.sh/pkg/eval/errs"
 	"src.elv.sh/pkg/eval/vals"
 	"verifharness/internal/elv"
 	"verifharness/internal/mon"
@@ -46,7 +47,16 @@ type pcase struct {
 	Outs   [][]string
 	Echo   bool `json:"echo_bytes"`
 	Gmp    int  `json:"gomaxprocs"`
+	// GoCB: the peach/each callback is the Go builtin $v-pc~ (same behaviour
+	// table; failures are plain Go errors, not Exceptions)
+	GoCB bool `json:"go_builtin_callback,omitempty"`
 }
+
+// goErr is the plain (non-Exception) error returned by the harness' Go
+// builtins.
+type goErr struct{ msg string }
+
+func (e goErr) Error() string { return e.msg }
 
 func (p *pcase) cmd(name string) string {
 	opt := ""
@@ -61,6 +71,9 @@ func (p *pcase) cmd(name string) string {
 		body = "put $@xs | " + name + opt + " $f"
 	default:
 		body = "all $xs | " + name + opt + " $f"
+	}
+	if p.GoCB {
+		body = strings.ReplaceAll(body, "$f", "$v-pc~")
 	}
 	return callbackSrc + "try { " + body + " } finally { v-mark main ret }\n"
 }
@@ -96,6 +109,55 @@ func (p *pcase) run(code string) *runResult {
 	elv.SetVar(ev, "dly2", intList(p.Dly2))
 	elv.SetVar(ev, "acts", toList(p.Acts))
 	elv.SetVar(ev, "outs", vals.MakeList(outs...))
+	fns := map[string]any{
+		// v-pc x: the callback of callbackSrc as a Go builtin
+		"v-pc": func(fm *eval.Frame, xv any) error {
+			x := vals.ToString(xv)
+			var xi int
+			if _, err := fmt.Sscan(x, &xi); err != nil || xi < 0 || xi >= p.N {
+				return goErr{"bad input " + x}
+			}
+			rec.Enter("g", "g", x)
+			sched.Yield(p.Dly[xi])
+			for _, o := range p.Outs[xi] {
+				var err error
+				if o[0] == 'v' {
+					err = fm.ValueOutput().Put(o)
+				} else {
+					_, err = fm.ByteOutput().WriteString(o + "\n")
+				}
+				if err != nil {
+					return err
+				}
+				sched.Yield(p.Dly2[xi])
+			}
+			rec.Leave("g", "g", x)
+			if p.Acts[xi] == "f" {
+				return goErr{"F" + x}
+			}
+			return nil
+		},
+	}
+	// run-parallel: Go builtin VALUES given directly as functions, one per position
+	for i, a := range p.Acts {
+		x, xi := fmt.Sprint(i), i
+		switch a {
+		case "G", "g":
+			fail := a == "G"
+			fns["v-rp"+x] = func() error {
+				rec.Enter("g", "g", x)
+				sched.Yield(p.Dly[xi])
+				rec.Leave("g", "g", x)
+				if fail {
+					return goErr{"G" + x}
+				}
+				return nil
+			}
+		case "A":
+			fns["v-rp"+x] = func(arg any) {} // does not accept zero arguments
+		}
+	}
+	ev.ExtendBuiltin(eval.BuildNs().AddGoFns(fns))
 	res := elv.Eval(ev, code)
 	ret := sched.Tick()
 	events := rec.Events()
@@ -146,6 +208,7 @@ func genCase(c *mon.Case) *pcase {
 		pStop = 1
 	}
 	heavy := r.Intn(3) == 0 // longer delays
+	p.GoCB = r.Intn(4) == 0
 	p.Acts = make([]string, p.N)
 	p.Dly = make([]int, p.N)
 	p.Dly2 = make([]int, p.N)
@@ -160,6 +223,13 @@ func genCase(c *mon.Case) *pcase {
 			}
 		} else if r.Intn(5) == 0 {
 			a = "c"
+		}
+		if p.GoCB { // a Go builtin fails with a plain error; it has no break/continue
+			if a == "b" {
+				a = "f"
+			} else if a == "c" {
+				a = "n"
+			}
 		}
 		p.Acts[x] = a
 		p.Dly[x] = yieldChoice(r.Intn(100), r.Intn(1000), heavy)
@@ -227,6 +297,8 @@ func observe(rr *runResult) (*obs, []string) {
 		for _, l := range sched.Leaves(rr.res.Err) {
 			if m, ok := sched.FailContent(l.Err); ok {
 				o.failMsgs = append(o.failMsgs, m)
+			} else if ge, ok := l.Err.(goErr); ok {
+				o.failMsgs = append(o.failMsgs, ge.msg)
 			} else {
 				problems = append(problems, fmt.Sprintf("unexpected error %T %q at %q", l.Err, l.Err.Error(), l.Path))
 			}
@@ -517,6 +589,12 @@ func runPeach(c *mon.Case) {
 		if rep > 0 {
 			c.Evals(1)
 		}
+		if p.GoCB {
+			c.Count("peach_runs_with_go_builtin_callback", 1)
+			if len(o.failMsgs) > 0 {
+				c.Count("peach_runs_with_go_builtin_callback_failure", 1)
+			}
+		}
 		c.Count("callbacks_started", len(o.starts))
 		c.Count("events", len(rr.events))
 		if len(o.starts) < p.N {
@@ -593,6 +671,7 @@ func runParallel(c *mon.Case) {
 	p.Gmp = []int{1, 2, 4, 16}[r.Intn(4)]
 	p.Echo = r.Intn(5) == 0
 	pFail := []float64{0, 0.1, 0.4, 1}[r.Intn(4)]
+	goFns := r.Intn(3) > 0
 	p.Acts = make([]string, p.N)
 	p.Dly = make([]int, p.N)
 	p.Dly2 = make([]int, p.N)
@@ -602,10 +681,16 @@ func runParallel(c *mon.Case) {
 		if r.Float64() < pFail {
 			a = []string{"f", "f", "b", "c"}[r.Intn(4)]
 		}
+		if goFns && r.Intn(5) < 2 {
+			// a Go builtin VALUE given directly: G fails with a plain Go error,
+			// g succeeds, A does not accept zero arguments (arity error),
+			// N = $nop~, F = $fail~ (arity error with zero arguments)
+			a = []string{"G", "G", "g", "A", "N", "F"}[r.Intn(6)]
+		}
 		p.Acts[x] = a
 		p.Dly[x] = yieldChoice(r.Intn(100), r.Intn(1000), true)
 		p.Dly2[x] = yieldChoice(r.Intn(100), r.Intn(1000), false)
-		for j, no := 0, r.Intn(4); j < no; j++ {
+		for j, no := 0, r.Intn(4); j < no && strings.Contains("nfbc", a); j++ {
 			kind := "v"
 			if r.Intn(3) == 0 {
 				kind = "b"
@@ -620,7 +705,16 @@ func runParallel(c *mon.Case) {
 	sb.WriteString(callbackSrc)
 	sb.WriteString("try { run-parallel")
 	for x := 0; x < p.N; x++ {
-		fmt.Fprintf(&sb, " { $f %d }", x)
+		switch p.Acts[x] {
+		case "G", "g", "A":
+			fmt.Fprintf(&sb, " $v-rp%d~", x)
+		case "N":
+			sb.WriteString(" $nop~")
+		case "F":
+			sb.WriteString(" $fail~")
+		default:
+			fmt.Fprintf(&sb, " { $f %d }", x)
+		}
 	}
 	sb.WriteString(" } finally { v-mark main ret }\n")
 	code := sb.String()
@@ -683,11 +777,24 @@ func checkRunParallel(c *mon.Case, p *pcase, code string, rr *runResult) bool {
 	for _, x := range starts {
 		cnt[x]++
 	}
+	nGo, nGoFail := 0, 0
 	for x := 0; x < p.N; x++ {
-		if n := cnt[fmt.Sprint(x)]; n != 1 {
+		want := 1
+		if strings.Contains("ANF", p.Acts[x]) {
+			want = 0 // no harness events: $nop~, or the call fails before the function body runs
+		}
+		if strings.Contains("GgANF", p.Acts[x]) {
+			nGo++
+		}
+		if strings.Contains("GAF", p.Acts[x]) {
+			nGoFail++
+		}
+		if n := cnt[fmt.Sprint(x)]; n != want {
 			fail("not-exactly-once", fmt.Sprintf("function %d was started %d times", x, n))
 		}
 	}
+	c.Count("rp_go_builtin_functions", nGo)
+	c.Count("rp_go_builtin_failures_expected", nGoFail)
 	if len(cnt) > p.N {
 		fail("unknown-start", "a function that was not given was started")
 	}
@@ -740,7 +847,7 @@ func checkRunParallel(c *mon.Case, p *pcase, code string, rr *runResult) bool {
 	// exceptions: like a pipeline — none: ok; one: itself; several: positional composite
 	var failing []int
 	for x, a := range p.Acts {
-		if a != "n" {
+		if a != "n" && a != "g" && a != "N" {
 			failing = append(failing, x)
 		}
 	}
@@ -748,6 +855,10 @@ func checkRunParallel(c *mon.Case, p *pcase, code string, rr *runResult) bool {
 		switch p.Acts[x] {
 		case "f":
 			return "F" + fmt.Sprint(x)
+		case "G":
+			return "G" + fmt.Sprint(x)
+		case "A", "F":
+			return "ARITY"
 		case "b":
 			return "break"
 		default:
@@ -757,7 +868,7 @@ func checkRunParallel(c *mon.Case, p *pcase, code string, rr *runResult) bool {
 	leavesE := sched.Leaves(rr.res.Err)
 	got := map[string]string{}
 	for _, l := range leavesE {
-		got[l.Path] = l.Err.Error()
+		got[l.Path] = reasonText(l.Err)
 	}
 	switch len(failing) {
 	case 0:
@@ -765,7 +876,7 @@ func checkRunParallel(c *mon.Case, p *pcase, code string, rr *runResult) bool {
 			fail("exception-spurious", "no function throws but run-parallel threw "+errText)
 		}
 	case 1:
-		if len(leavesE) != 1 || leavesE[0].Path != "" || leavesE[0].Err.Error() != wantReason(failing[0]) {
+		if len(leavesE) != 1 || leavesE[0].Path != "" || reasonText(leavesE[0].Err) != wantReason(failing[0]) {
 			fail("exception-single", fmt.Sprintf("one function throws %q; run-parallel threw %q", wantReason(failing[0]), errText))
 		}
 	default:
@@ -788,6 +899,13 @@ func checkRunParallel(c *mon.Case, p *pcase, code string, rr *runResult) bool {
 		c.Count("rp_runs_with_exceptions", 1)
 	}
 	return ok
+}
+
+func reasonText(e error) string {
+	if _, ok := e.(errs.ArityMismatch); ok {
+		return "ARITY"
+	}
+	return e.Error()
 }
 
 func nlIf(b bool) string {
@@ -830,7 +948,7 @@ func sameMultisetOrdered(want, got []string) bool {
 func Spec() *mon.Spec {
 	return &mon.Spec{
 		ID: "C20", Level: "exploration", Race: true,
-		Rule: "peach case = N inputs (0..500), a worker bound from {1,2,..8,+inf,10^20}, an input source (list argument, `put $@xs |`, `all $xs |`), and a callback whose behaviour is a pure function of its input x: v-enter, PRNG-chosen yields/sleeps, 0..3 outputs tagged (x,j) on the value band or as byte lines, v-leave, then normal/continue/break/`fail Fx` (density swept 0..1); each case is run 5x (3x above 16 inputs, once above 100) on fresh interpreters at GOMAXPROCS from {1,2,4,16} under the race detector; with bound 1, `each` runs the same callback and inputs on a fresh interpreter and the logs are compared. run-parallel case = 0..48 such functions, 3 runs. Non-trivial = case with >= 2 inputs/functions, distinct by (N, bound, source, action table, delay table).",
+		Rule: "peach case = N inputs (0..500), a worker bound from {1,2,..8,+inf,10^20}, an input source (list argument, `put $@xs |`, `all $xs |`), and a callback whose behaviour is a pure function of its input x: v-enter, PRNG-chosen yields/sleeps, 0..3 outputs tagged (x,j) on the value band or as byte lines, v-leave, then normal/continue/break/`fail Fx` (density swept 0..1); each case is run 5x (3x above 16 inputs, once above 100) on fresh interpreters at GOMAXPROCS from {1,2,4,16} under the race detector; with bound 1, `each` runs the same callback and inputs on a fresh interpreter and the logs are compared. in a quarter of the peach cases the callback is the Go builtin $v-pc~ with the same behaviour table (failures are plain Go errors). run-parallel case = 0..48 such functions, 3 runs; in two thirds of the cases 40% of the positions are Go builtin VALUES given directly ($v-rpN~ failing with a plain Go error / succeeding / not accepting zero arguments, $nop~, $fail~) mixed with closures. Non-trivial = case with >= 2 inputs/functions, distinct by (N, bound, source, action table, delay table).",
 		Assumptions: []string{
 			"echo writes its text and the newline with two separate writes, so lines of concurrent callbacks may legally interleave: cases that use echo only compare the byte multiset; line-level union is demanded for single-write `print $line\"\\n\"`",
 			"a callback counts as started when its first command (v-enter) runs; 'returns after every callback finished' is decided by the logical clock: every v-leave stamp must be smaller than the stamp of the finally block that follows the command",
@@ -844,6 +962,7 @@ func Spec() *mon.Spec {
 		HangViolation: true,
 		Floors: map[string]int{"distinct_nontrivial": 70, "callbacks_started": 2000, "bound1_comparisons": 30,
 			"bound1_comparisons_with_break_or_fail": 6, "runs_with_overlap": 150, "runs_with_inputs_skipped_after_break_or_fail": 50,
-			"rp_functions_started": 400, "rp_runs_with_exceptions": 25, "interleavings": 200, "concurrency_seen": 4},
+			"rp_functions_started": 400, "rp_runs_with_exceptions": 25, "interleavings": 200, "concurrency_seen": 4,
+			"rp_go_builtin_functions": 60, "rp_go_builtin_failures_expected": 30, "peach_runs_with_go_builtin_callback": 50, "peach_runs_with_go_builtin_callback_failure": 10},
 	}
 }
